@@ -144,7 +144,7 @@ func ConnectWithConfig(c *ConnConfig) (*Conn, error) {
 			go func() {
 				conn.state.WaitUntil(ctx, connStatusClosed)
 				cancel()
-				conn.eventDispatcher.cond.Broadcast()
+				wake(conn.eventDispatcher.cond)
 			}()
 			go func() {
 				conn.eventDispatcher.dispatchLoop(ctx)
@@ -351,8 +351,8 @@ func (c *Conn) OpenUpstream(ctx context.Context, sessionID string, opts ...Upstr
 		receivedAck:            sync.NewCond(&sync.RWMutex{}),
 	}
 	go func() {
-		defer c.state.cond.Broadcast()
-		defer u.state.cond.Broadcast()
+		defer wake(c.state.cond)
+		defer wake(u.state.cond)
 		defer cancel()
 		c.state.WaitUntil(ctx, connStatusClosed)
 	}()
@@ -370,7 +370,7 @@ func (c *Conn) OpenUpstream(ctx context.Context, sessionID string, opts ...Upstr
 			u.eventDispatcher.dispatchLoop(ctx)
 		}()
 		context.AfterFunc(ctx, func() {
-			u.eventDispatcher.cond.Broadcast()
+			wake(u.eventDispatcher.cond)
 		})
 		var isResume bool
 		for {
@@ -508,8 +508,8 @@ func (c *Conn) OpenDownstream(ctx context.Context, filters []*message.Downstream
 		Config:     downconf,
 	}
 	go func() {
-		defer c.state.cond.Broadcast()
-		defer down.state.cond.Broadcast()
+		defer wake(c.state.cond)
+		defer wake(down.state.cond)
 		defer cancel()
 		c.state.WaitUntil(ctx, connStatusClosed)
 	}()
@@ -528,7 +528,7 @@ func (c *Conn) OpenDownstream(ctx context.Context, filters []*message.Downstream
 			down.eventDispatcher.dispatchLoop(ctx)
 		}()
 		context.AfterFunc(ctx, func() {
-			down.eventDispatcher.cond.Broadcast()
+			wake(down.eventDispatcher.cond)
 		})
 
 		for {
